@@ -56,6 +56,23 @@ static Built build(Rng& r, GenCfg cfg, bool vec_image, bool mat_image = false) {
   return b;
 }
 
+// a function over vector / matrix symbols built by the symbolic linear algebra generator
+static Built build_linalg(Rng& r, bool outer = true) {
+  Built b; int n = r.range(2, 3); LinAlgGen g(r, n); g.outer = outer;
+  int nc = r.range(1, 3), nr = r.below(2), nm = r.below(3), nsc = r.below(2);
+  int ns = nc + nr + nm + nsc; b.args = new Array<const ExprSymbol>(ns); b.nvar = 0; int k = 0;
+  for (int i = 0; i < nc; i++) { const ExprSymbol& s = ExprSymbol::new_(("x" + to_string(k)).c_str(), Dim::col_vec(n)); b.args->set_ref(k++, s); g.cols.push_back(&s); b.nvar += n; }
+  for (int i = 0; i < nr; i++) { const ExprSymbol& s = ExprSymbol::new_(("x" + to_string(k)).c_str(), Dim::row_vec(n)); b.args->set_ref(k++, s); g.rows.push_back(&s); b.nvar += n; }
+  for (int i = 0; i < nm; i++) { const ExprSymbol& s = ExprSymbol::new_(("x" + to_string(k)).c_str(), Dim::matrix(n, n)); b.args->set_ref(k++, s); g.mats.push_back(&s); b.nvar += n * n; }
+  for (int i = 0; i < nsc; i++) { const ExprSymbol& s = ExprSymbol::new_(("x" + to_string(k)).c_str(), Dim::scalar()); b.args->set_ref(k++, s); g.scals.push_back(&s); b.nvar += 1; }
+  int d = r.range(1, 3); const ExprNode* e;
+  switch (r.below(4)) { case 0: e = &g.scal(d + 1); b.rows = 1; b.cols = 1; break; case 1: e = &g.col(d); b.rows = n; b.cols = 1; break;
+                        case 2: e = &g.row(d); b.rows = 1; b.cols = n; break; default: e = &g.mat(d); b.rows = n; b.cols = n; }
+  b.dag = dump_expr(*e, *b.args);
+  b.f = new Function(*b.args, *e, "f");
+  return b;
+}
+
 int main(int argc, char** argv) {
   string wl = argc > 1 ? argv[1] : "c08";
   uint64_t seed = argc > 2 ? strtoull(argv[2], 0, 10) : 1;
@@ -67,7 +84,8 @@ int main(int argc, char** argv) {
     try {
       if (wl == "c08") {
         GenCfg cfg; cfg.differentiable = r.coin(75); cfg.allow_vec = r.coin(60); cfg.allow_apply = r.coin(40); cfg.max_depth = r.range(1, 4);
-        Built b = build(r, cfg, true);
+        Built b = r.coin(20) ? build_linalg(r, false) : build(r, cfg, true);
+        if (b.rows > 1 && b.cols > 1) { delete b.f; continue; }   // (matrix-valued images: not in this workload)
         Function& f = *b.f; int m = b.rows * b.cols;
         for (int k = 0; k < 3; k++) {
           Vector c(b.nvar); for (int i = 0; i < b.nvar; i++) c[i] = dyadic(r);
@@ -131,7 +149,8 @@ int main(int argc, char** argv) {
         }
       } else if (wl == "c12") {
         GenCfg cfg; cfg.differentiable = true; cfg.allow_vec = r.coin(60); cfg.allow_apply = r.coin(40); cfg.max_depth = r.range(1, 4);
-        Built b = build(r, cfg, true);
+        Built b = r.coin(30) ? build_linalg(r) : build(r, cfg, true);
+        if (b.rows > 1 && b.cols > 1) { delete b.f; continue; }   // (differentiation of matrix-valued functions is not supported)
         cur = b.dag;
         if (getenv("VERIF_TRACE")) { fprintf(stderr, "TRACE %s\n", cur.c_str()); fflush(stderr); }
         const Function& df = b.f->diff();
@@ -145,7 +164,7 @@ int main(int argc, char** argv) {
         }
       } else if (wl == "c11") {
         GenCfg cfg; cfg.differentiable = r.coin(30); cfg.allow_vec = r.coin(70); cfg.allow_apply = false; cfg.max_depth = r.range(1, 4);
-        Built b = build(r, cfg, true, true);
+        Built b = r.coin(30) ? build_linalg(r) : build(r, cfg, true, true);
         Function& f = *b.f;
         cur = b.dag;
         auto trace = [&](const char* what) { if (getenv("VERIF_TRACE")) { fprintf(stderr, "TRACE %s %s\n", what, cur.c_str()); fflush(stderr); } };
